@@ -130,7 +130,9 @@ def run_tlc(module, cfg=None, *, workers=None, env=None, timeout=900, simulate=N
     specdir = Path(specdir or SPEC)
     cfg = cfg or module + '.cfg'
     meta = tempfile.mkdtemp(prefix='tlc-meta-')
-    jopts = ['-XX:+UseParallelGC', '-Xmx' + heap]
+    # TLC unpacks its standard modules into java.io.tmpdir and leaves them behind when it is killed: keep them in
+    # the meta directory, which is removed below
+    jopts = ['-XX:+UseParallelGC', '-Xmx' + heap, '-Djava.io.tmpdir=' + meta]
     if dfs:
         jopts.append('-Dtlc2.tool.queue.IStateQueue=StateDeque')
     cmd = ['java'] + jopts + ['-cp', JAR, 'tlc2.TLC', '-metadir', meta, '-noGenerateSpecTE',
